@@ -801,7 +801,11 @@ func (vs *Vars) UnmarshalJSON(b []byte) error {
 						return fmt.Errorf("invalid var %v: expected list of vars", v)
 					}
 					if typeText, ok := m["type"]; ok {
-						err := vars[i].Type.UnmarshalText([]byte(typeText.(string)))
+						typeString, ok := typeText.(string)
+						if !ok {
+							return fmt.Errorf("invalid var %v: expected list type to be a string", v)
+						}
+						err := vars[i].Type.UnmarshalText([]byte(typeString))
 						if err != nil {
 							return err
 						}
